@@ -475,7 +475,7 @@ func appendInt(dst []byte, bits uint8, index uint64) []byte {
 	}
 	b0 := uint64(1<<bits - 1)
 
-	if index <= b0 {
+	if index < b0 {
 		dst[len(dst)-1] |= byte(index)
 		return dst
 	}
